@@ -128,11 +128,11 @@ C0 = [chr(i) for i in range(0x20)]
 LEAVES_FULL: List[Any] = (
     [None, True, False, 0, 1, -1, 2**31, 2**53, 2**53 + 1, -(2**53) - 1, 2**63 - 1, 2**63, U64_MAX, I64_MIN, I64_MIN + 1,
      0.0, -0.0, 1.5, -1.5, 0.1, 1e308, -1e308, 5e-324, 2.2250738585072014e-308, 1e16, 1e22, 1.7976931348623157e308, 123456789.125,
-     "", "a", " ", '"', "\\", "/", "\x7f", "\u0080", "\u0085", " ", "߿", "ࠀ", " ", " ", "퟿", "", "﻿", "�", "￿",
-     "\U00010000", "\U0001F600", "\U0010FFFF", "a\nb", "\r\n", "123", "null", "é" * 3]
+     "", "a", " ", '"', "\\", "/", "\x7f", "\u0080", "\u0085", "\u00a0", "\u07ff", "\u0800", "\u2028", "\u2029", "\ud7ff", "\ue000", "\ufeff", "\ufffd", "\uffff",
+     "\U00010000", "\U0001F600", "\U0010FFFF", "a\nb", "\r\n", "123", "null", "\u00e9" * 3]
     + C0
 )
-LEAVES_SMALL: List[Any] = [None, True, 0, 2**63, -0.0, 1.5, "", "\n", " ", "\U0001F600"]
+LEAVES_SMALL: List[Any] = [None, True, 0, 2**63, -0.0, 1.5, "", "\n", "\u2028", "\U0001F600"]
 KEYS = ["k", "", "é", "\n", "\U0001F600", " "]
 
 
